@@ -72,7 +72,10 @@ pub struct One {
 }
 impl One {
     pub fn new(rx: usize, tx: usize, seed: u64) -> One {
-        let mut dev = SimDevice::new(Medium::Ip, 1500);
+        One::with_mtu(rx, tx, seed, 1500)
+    }
+    pub fn with_mtu(rx: usize, tx: usize, seed: u64, mtu: usize) -> One {
+        let mut dev = SimDevice::new(Medium::Ip, mtu);
         let mut c = Config::new(HardwareAddress::Ip);
         c.random_seed = seed;
         let mut iface = Interface::new(c, &mut dev, Instant::from_micros(0));
